@@ -8,6 +8,9 @@ def build(r, leaf_str=False, via="ctor"):
         return puan.variable(r["id"], (r["lo"], r["hi"]))
     args = [build(x, leaf_str, via) for x in r["a"]]
     ident = r["id"] or None
+    if ident is not None and r.get("f", -1) != -1 and via != "json":
+        import puan as _p
+        ident = _p.variable(ident, (r["f"], r["f"]))         # pre-fixed compound: variable with constant bounds
     c = r["c"]
     if via == "json":
         if c == "Cfg":
@@ -76,7 +79,7 @@ def recipe_tokens(r, tok):
     if r["c"] == "leaf":
         return {"c": "leaf", "id": tok(r["id"]), "lo": r["lo"], "hi": r["hi"]}
     return {"c": r["c"], "a": [recipe_tokens(x, tok) for x in r["a"]], "id": tok(r["id"]) if r["id"] else "",
-            "v": r["v"], "s": r["s"], "d": tok(r["d"]) if r.get("d") else ""}
+            "v": r["v"], "s": r["s"], "d": tok(r["d"]) if r.get("d") else "", "f": r.get("f", -1)}
 
 _RULE = {"All": "REQUIRES_ALL", "Any": "REQUIRES_ANY", "Xor": "REQUIRES_EXCLUSIVELY"}
 
@@ -110,6 +113,8 @@ def to_cicje(r):
             comps = _components(cond["a"])
             if comps is None: return None
             sub = [{"relation": "ALL" if cond["c"] == "All" else "ANY", "components": comps}]
+            if cond["c"] == "All" and len(comps) % 2 == 0:
+                del sub[0]["relation"]                 # "ALL" is the documented default when the key is missing
             if cond["id"]: sub[0]["id"] = cond["id"]
             condition = {"relation": "ALL", "subConditions": sub}
         else:
@@ -119,10 +124,14 @@ def to_cicje(r):
                 comps = _components(x["a"])
                 if comps is None: return None
                 s = {"relation": "ALL" if x["c"] == "All" else "ANY", "components": comps}
+                if x["c"] == "All" and len(subs) % 2 == 0:
+                    del s["relation"]
                 if x["id"]: s["id"] = x["id"]
                 subs.append(s)
             if len(subs) < 2: return None
             condition = {"relation": "ALL" if cond["c"] == "All" else "ANY", "subConditions": subs}
+            if cond["c"] == "All" and len(subs) == 2:
+                del condition["relation"]
             if cond["id"]: condition["id"] = cond["id"]
         d = {"condition": condition, "consequence": cons}
         if r["id"]: d["id"] = r["id"]
